@@ -2122,6 +2122,8 @@ class Tensor(object):
         reached = tn.relative_error(copy, self)
         if reached < eps:
             self.round_tucker((1 + eps) / (1 + reached) - 1, **kwargs)
+        elif kwargs.get("rmax") is not None:  # No budget left: only enforce rmax
+            self.round_tucker(0, **kwargs)
 
     """
     Convenience "methods"
